@@ -57,3 +57,27 @@ Theorem C02_pipeline :
            Acc (post tr).
 Proof. exact PipelineLA.pipeline_complete. Qed.
 Print Assumptions C02_pipeline.
+
+From YG Require Import LRBase CompleteDriver Pipeline WfGrammar.
+Close Scope Z_scope.
+Open Scope nat_scope.
+
+(* the same under the boolean well-formedness check of the grammar object alone (productivity follows from what generate_tables tests itself) *)
+Theorem C02_checked :
+  forall gi : ginfo,
+         wf_gi gi = true ->
+         forall t : tables,
+         generate_tables gi = inr t ->
+         (forall q a : nat,
+          length
+            (TableCert.candidates (gi_rules gi) (t_aut t) (la_lookup (t_la t)) (sprec_of gi) (rprec_of gi) q a) <=
+          1) ->
+         forall tr : tree,
+         tvalid (gi_rules gi) tr ->
+         Some (root (gi_rules gi) tr) = hd_error (rhs_of (gi_rules gi) 0) ->
+         (forall a : nat, In a (yield tr) -> a < gi_nsyms gi) ->
+         exists fuel : nat,
+           run fuel (dense_action (length (t_aut t)) (t_dense t)) (gi_rules gi) [(0, eof)] (yield tr) [] =
+           Acc (post tr).
+Proof. exact WfGrammar.checked_complete. Qed.
+Print Assumptions C02_checked.
